@@ -141,29 +141,63 @@ func RxRunRegs(need, nenv, ps0 int, pkts []Pkt, regs map[int][2]int) (res sx.L, 
 	}
 	var hooks []hookEv
 	nEed, nEnv := 0, 0
-	addEed := func() {
+	mkEed := func() tds.EEDHook {
 		i := nEed
 		nEed++
-		ch.RegisterEEDHooks(func(e tds.EEDPackage) {
+		return func(e tds.EEDPackage) {
 			n, _ := ch.VerifQueueLens()
 			_, f, _ := renderCore(&e)
 			hooks = append(hooks, hookEv{n, sx.L{sx.I(4), sx.I(int64(i)), f}})
-		})
+		}
 	}
-	addEnv := func() {
+	mkEnv := func() tds.EnvChangeHook {
 		i := nEnv
 		nEnv++
-		ch.RegisterEnvChangeHooks(func(typ tds.EnvChangeType, o, n string) {
+		return func(typ tds.EnvChangeType, o, n string) {
 			c, _ := ch.VerifQueueLens()
 			hooks = append(hooks, hookEv{c, sx.L{sx.I(5), sx.I(int64(i)), sx.I(int64(typ)), pk.S(o), pk.S(n)}})
-		})
+		}
 	}
-	for i := 0; i < need; i++ {
-		addEed()
+	addEed := func() { ch.RegisterEEDHooks(mkEed()) }
+	addEnv := func() { ch.RegisterEnvChangeHooks(mkEnv()) }
+	// The first hooks are registered the way an application with a list of default hooks does it: one call spreading a
+	// slice that has spare capacity, and the same slice is given to a sibling channel (on another connection) as well. The
+	// sibling later registers a hook of its own; a message of THIS channel must never reach that foreign hook (it would be
+	// reported as hook -1), and this channel's hooks must keep being called.
+	var sibling *tds.Channel
+	foreign := func(e tds.EEDPackage) {
+		_, f, _ := renderCore(&e)
+		hooks = append(hooks, hookEv{0, sx.L{sx.I(4), sx.I(-1), f}})
 	}
-	for i := 0; i < nenv; i++ {
-		addEnv()
+	foreignEnv := func(typ tds.EnvChangeType, o, n string) {
+		hooks = append(hooks, hookEv{0, sx.L{sx.I(5), sx.I(-1), sx.I(int64(typ)), pk.S(o), pk.S(n)}})
 	}
+	if need > 0 || nenv > 0 {
+		if c2, err := tds.VerifNewConn(context.Background(), &tds.Info{}, nullTransport{}, false); err == nil {
+			sibling, _ = c2.NewChannel()
+		}
+	}
+	if need > 0 {
+		hs := make([]tds.EEDHook, 0, need+8)
+		for i := 0; i < need; i++ {
+			hs = append(hs, mkEed())
+		}
+		ch.RegisterEEDHooks(hs...)
+		if sibling != nil {
+			sibling.RegisterEEDHooks(hs...)
+		}
+	}
+	if nenv > 0 {
+		hs := make([]tds.EnvChangeHook, 0, nenv+8)
+		for i := 0; i < nenv; i++ {
+			hs = append(hs, mkEnv())
+		}
+		ch.RegisterEnvChangeHooks(hs...)
+		if sibling != nil {
+			sibling.RegisterEnvChangeHooks(hs...)
+		}
+	}
+	siblingDone := false
 	pktIndex := -1
 	for _, p := range pkts {
 		pktIndex++
@@ -173,6 +207,11 @@ func RxRunRegs(need, nenv, ps0 int, pkts []Pkt, regs map[int][2]int) (res sx.L, 
 			}
 			for i := 0; i < r[1]; i++ {
 				addEnv()
+			}
+			if sibling != nil && !siblingDone {
+				siblingDone = true
+				sibling.RegisterEEDHooks(foreign)
+				sibling.RegisterEnvChangeHooks(foreignEnv)
 			}
 		}
 		hooks = nil
@@ -303,7 +342,8 @@ func envItem(g *pk.Gen, members int) Item {
 }
 
 var rxTypes = []asetypes.DataType{asetypes.INT4, asetypes.INT2, asetypes.INT8, asetypes.VARCHAR, asetypes.CHAR, asetypes.VARBINARY, asetypes.LONGCHAR,
-	asetypes.INTN, asetypes.FLT8, asetypes.MONEY, asetypes.DATETIME, asetypes.DATE, asetypes.BIT}
+	asetypes.INTN, asetypes.FLT8, asetypes.MONEY, asetypes.DATETIME, asetypes.DATE, asetypes.BIT,
+	asetypes.TEXT, asetypes.IMAGE, asetypes.UNITEXT, asetypes.XML}
 
 // the first rxSafe types re-encode to the same bytes whatever the bytes are (needed when the stream is mutated:
 // the harness renders a value by re-encoding it; temporal values and bits are normalised by that)
@@ -358,6 +398,10 @@ func resultSet(g *pk.Gen, wide bool, ncols, nrows int) []Item {
 				}
 			}
 			d := Data{raw: randValue(g, f.info, n)}
+			if f.info.kind == 5 { // text pointer columns: pointer, timestamp, 4-byte length, data
+				d.txtPtr = g.Rng.Bytes([]int{0, 16, 16, 24}[g.Rng.Intn(4)])
+				d.ts = g.Rng.Bytes(8)
+			}
 			body = append(body, d.encode(f)...)
 		}
 		items = append(items, Item{int(tds.TDS_ROW), body})
@@ -409,6 +453,17 @@ func stream(items []Item) []byte {
 		b = append(b, it.Bytes()...)
 	}
 	return b
+}
+
+// withStatusBits sets further header status bits (attention acknowledgement, attention, event, sealed, encrypted) on some
+// packets: only the end-of-message bit has a meaning for the receive path.
+func withStatusBits(g *pk.Gen, pkts []Pkt) []Pkt {
+	for i := range pkts {
+		if g.Rng.Intn(3) == 0 {
+			pkts[i].Status = []int{0x02, 0x04, 0x08, 0x0a, 0x10, 0x20, 0xfe}[g.Rng.Intn(7)]
+		}
+	}
+	return pkts
 }
 
 // Packetise cuts a message at the given offsets (sorted, 0 < c < len); EOM on the last packet.
@@ -475,7 +530,7 @@ func GenRx(g *pk.Gen) {
 					cuts = append(cuts, c)
 				}
 			}
-			emitRx(g, need, nenv, 512, Packetise(msg, cuts), "cutmany")
+			emitRx(g, need, nenv, 512, withStatusBits(g, Packetise(msg, cuts)), "cutmany")
 		}
 		for _, body := range []int{1, 2, 8} {
 			var cuts []int
@@ -538,7 +593,7 @@ func GenRx(g *pk.Gen) {
 					cuts = append(cuts, c)
 				}
 			}
-			pkts = append(pkts, Packetise(msg, cuts)...)
+			pkts = append(pkts, withStatusBits(g, Packetise(msg, cuts))...)
 			if g.Rng.Intn(8) == 0 { // a header-only packet between responses
 				pkts = append(pkts, Pkt{MsgType: int(tds.TDS_BUF_PROTACK), Channel: 0, Nr: g.Rng.Intn(256)})
 			}
@@ -638,6 +693,7 @@ func ConsumerRun(need, nenv int, rounds [][]Pkt, calls [][]Call) sx.L {
 		for _, p := range pkts {
 			pkt := &tds.Packet{Data: append([]byte{}, p.Body...)}
 			pkt.Header.MsgType = tds.PacketHeaderType(p.MsgType)
+			pkt.Header.Status = tds.PacketHeaderStatus(p.Status)
 			if p.EOM {
 				pkt.Header.Status |= tds.TDS_BUFSTAT_EOM
 			}
@@ -767,7 +823,7 @@ func GenConsumer(g *pk.Gen) {
 					cuts = append(cuts, c)
 				}
 			}
-			pkts := Packetise(msg, cuts)
+			pkts := withStatusBits(g, Packetise(msg, cuts))
 			// calls: a few callbacks that stop / continue, ended by a call that completes the round
 			var cs []Call
 			for k := 0; k < g.Rng.Intn(3); k++ {
